@@ -17,7 +17,14 @@ class HalfReg(stubs.RecReg):
         return stubs.RecReg.fit(self, X, y, sample_weight)
 
     def predict(self, X):
-        return stubs.RecReg.predict(self, X) + 0.5 + 1000.0 * (self.n_fits_ - 1)
+        # it also memoises its last answer and hands out the SAME array again for the same query (the array belongs to
+        # the regressor: whoever sums predictions must not do it in place)
+        X = numpy.asarray(X)
+        key = (X.tobytes(), X.dtype.str, X.shape, self.n_fits_)
+        memo = getattr(self, "_memo", None)
+        if memo is None or memo[0] != key:
+            self._memo = memo = (key, stubs.RecReg.predict(self, X) + 0.5 + 1000.0 * (self.n_fits_ - 1))
+        return memo[1]
 
 
 def one_trace(tid, n, m, a, b, weighted, n_jobs, seed, probes):
